@@ -4,6 +4,9 @@ import json, os
 V = "/verif"
 CLAIMED = {
  # id: (clause text, technique, level_note, design_ref)
+ "C09": ("Decides a necessary structural clause of 'no input can crash the node' for every path at once: over all module functions reachable from CheckTx/DeliverTx/Query, every explicit panic / Must* helper is a listed construct with its invariant; every payload type assertion without comma-ok sits where the tx-type dataflow admits only the payload type Trx.fromProto allocates; every slice/index on a slice has a dominating length bound or clamp; no result of a nil-with-error / may-return-nil function is dereferenced on the error branch or without a nil test, nor parked in a struct field while the function can still succeed; every integer division by a non-constant is guarded or carries a listed invariant. Panics inside dependencies are not covered.",
+         "SSA dominance/guard analysis + interprocedural tx-type constant propagation + nil-with-error summaries over the repaired VTA call graph",
+         "trusted: go/ssa, VTA call graph (closures of unreachable functions pruned), dependency code; exception tables in tool/c09.go, one resolved construct each with its invariant", "DESIGN.md §3 C09"),
  "C20": ("Decides, for all inputs at once, the structural mechanisms that make the signer safe: CheckHRS is evaluated exhaustively on the 108 sign/nil abstractions of its inputs (it touches them only through comparisons) against the lexicographic reference; sign is unreachable after a CheckHRS error or on sameHRS; the stored signature is re-released only under the same-message tests; saveSigned with the checked/signed values dominates every release and every success return; the save path reaches an atomic write and panics on error; the loader restores the saved state. It does not decide atomicity of the file write itself.",
          "exhaustive abstract evaluation of CheckHRS's CFG + SSA dominance / must-pass-through rules on signVote, signProposal, saveSigned, Save, loadSFilePV",
          "trusted: go/ssa, tendermint tempfile.WriteFileAtomic, tmjson, secp256k1; structural clause only (level other)", "DESIGN.md §3 C20"),
